@@ -161,6 +161,10 @@ def _worker_init(modname, tier, seed, env):
     import warnings
     warnings.simplefilter('ignore')
     np.seterr(all='ignore')
+    if getattr(mod, 'POISON_WORD', None) is not None:
+        # NEP-49 allocator: every fresh numpy malloc is filled with this 8-byte word
+        _W['poison'] = build.load_poison()
+        _W['poison'].install(mod.POISON_WORD)
     _W['mod'] = mod
     _W['tier'] = tier
     _W['seed'] = seed
